@@ -26,8 +26,10 @@ EXTENDS BlockValue, Json, IOUtils
 Tr == ndJsonDeserialize(IOEnv.TRACE)
 N  == Len(Tr)
 
-VARIABLES l, val, cur, lost, viol, execs, mf
-tvars == <<l, val, cur, lost, viol, execs, mf>>
+VARIABLES l, val, cur, lost, viol, execs, mf, st
+tvars == <<l, val, cur, lost, viol, execs, mf, st>>
+(* st: the block statistics a slot's block holds (processed_messages; 0 = none): those most recently supplied with an item  *)
+(* since the block was made or cleared; a copy holds what its source holds - nothing of what the target held before.        *)
 (* mf: slots whose block was the source of a MOVE and was not overwritten, re-made or destroyed since.  The property    *)
 (* promises nothing about a moved-from block (the pinned code copies, a real move empties it): nothing observed on it,  *)
 (* or on a block obtained from it, is judged.                                                                            *)
@@ -36,11 +38,11 @@ Note(v) == IF Len(viol) < 40 THEN Append(viol, v) ELSE viol
 Slots == 1..3
 
 TraceInit == /\ l = 1 /\ val = [t \in Slots |-> EmptyVal] /\ cur = [t \in Slots |-> NoCursor]
-             /\ lost = TRUE /\ viol = <<>> /\ execs = 0 /\ mf = {}
+             /\ lost = TRUE /\ viol = <<>> /\ execs = 0 /\ mf = {} /\ st = [t \in Slots |-> 0]
 
 TReset == /\ l <= N /\ Tr[l].e = "R"
           /\ val' = [t \in Slots |-> EmptyVal] /\ cur' = [t \in Slots |-> NoCursor]
-          /\ lost' = FALSE /\ execs' = execs + 1 /\ l' = l + 1 /\ mf' = {}
+          /\ lost' = FALSE /\ execs' = execs + 1 /\ l' = l + 1 /\ mf' = {} /\ st' = [t \in Slots |-> 0]
           /\ UNCHANGED viol
 
 Bad(what, ev) == /\ viol' = Note([l |-> l, prop |-> "C19", what |-> what, event |-> ev])
@@ -48,10 +50,14 @@ Bad(what, ev) == /\ viol' = Note([l |-> l, prop |-> "C19", what |-> what, event 
 
 TItem == /\ l <= N /\ Tr[l].e = "I"
          /\ l' = l + 1 /\ UNCHANGED <<execs, cur, mf>>
+         /\ st' = IF "sv" \in DOMAIN Tr[l] /\ Tr[l].sv > 0 THEN [st EXCEPT ![Tr[l].t] = Tr[l].sv] ELSE st
          /\ IF lost \/ Tr[l].t \in mf THEN UNCHANGED <<val, lost, viol>>
             ELSE LET ev == Tr[l]
                      nv == AbsAddItem(val[ev.t], ev.k, ev.v)
-                 IN IF ev.n # Count(nv, ev.k)
+                 IN IF "st" \in DOMAIN ev /\ ev.st # st'[ev.t]
+                    THEN Bad("after adding an item the block holds other statistics than those most recently supplied to it", ev)
+                         /\ UNCHANGED val
+                    ELSE IF ev.n # Count(nv, ev.k)
                     THEN Bad("adding an item to a block gave another item count than on a fresh block with that content", ev)
                          /\ UNCHANGED val
                     ELSE IF ev.full # AbsFull(nv)
@@ -63,12 +69,12 @@ TItem == /\ l <= N /\ Tr[l].e = "I"
                     ELSE val' = [val EXCEPT ![ev.t] = nv] /\ UNCHANGED <<lost, viol>>
 
 TNew == /\ l <= N /\ Tr[l].e = "NB"
-        /\ l' = l + 1 /\ UNCHANGED <<execs, lost, viol>> /\ mf' = mf \ {Tr[l].t}
+        /\ l' = l + 1 /\ UNCHANGED <<execs, lost, viol>> /\ mf' = mf \ {Tr[l].t} /\ st' = [st EXCEPT ![Tr[l].t] = 0]
         /\ val' = [val EXCEPT ![Tr[l].t] = EmptyValP(Tr[l].p)]
         /\ cur' = [cur EXCEPT ![Tr[l].t] = NoCursor]
 
 TSetP == /\ l <= N /\ Tr[l].e = "SP"
-         /\ l' = l + 1 /\ UNCHANGED <<execs, cur, mf>>
+         /\ l' = l + 1 /\ UNCHANGED <<execs, cur, mf, st>>
          /\ IF lost \/ Tr[l].t \in mf THEN UNCHANGED <<val, lost, viol>>
             ELSE LET ev == Tr[l]
                      allowed == Counts(val[ev.t]) = <<0, 0, 0>>
@@ -80,16 +86,21 @@ TSetP == /\ l <= N /\ Tr[l].e = "SP"
 TClear == /\ l <= N /\ Tr[l].e \in {"CL", "DS"}
           /\ l' = l + 1 /\ UNCHANGED <<execs, lost, viol, cur>>
           /\ mf' = IF Tr[l].e = "DS" THEN mf \ {Tr[l].t} ELSE mf
+          /\ st' = [st EXCEPT ![Tr[l].t] = 0]
           /\ val' = [val EXCEPT ![Tr[l].t] = IF Tr[l].e = "CL" THEN EmptyValP(@.p) ELSE EmptyVal]
 
 TCopy == /\ l <= N /\ Tr[l].e = "CP"
          /\ l' = l + 1 /\ UNCHANGED execs
          /\ mf' = IF Tr[l].src \in mf THEN mf \cup {Tr[l].dst}
                   ELSE IF Tr[l].how \in {"mctor", "massign"} THEN (mf \ {Tr[l].dst}) \cup {Tr[l].src} ELSE mf \ {Tr[l].dst}
+         /\ st' = [st EXCEPT ![Tr[l].dst] = st[Tr[l].src]]
          /\ IF lost \/ Tr[l].src \in mf THEN UNCHANGED <<val, cur, lost, viol>>
             ELSE LET ev == Tr[l] IN
                  IF ev.counts # Counts(val[ev.src])
                  THEN Bad("copied block does not hold the source's items", ev) /\ UNCHANGED <<val, cur>>
+                 ELSE IF "st" \in DOMAIN ev /\ ev.st # st[ev.src]
+                 THEN Bad("copied block does not hold the source's block statistics (those of the source, present or absent - not what the target held before)", ev)
+                      /\ UNCHANGED <<val, cur>>
                  ELSE /\ val' = [val EXCEPT ![ev.dst] = val[ev.src]]
                       /\ cur' = [cur EXCEPT ![ev.dst] = NoCursor]
                       /\ UNCHANGED lost
@@ -98,7 +109,7 @@ TCopy == /\ l <= N /\ Tr[l].e = "CP"
                                              what |-> "lookup keys of the copied block still refer to the source's storage"])
 
 TRead == /\ l <= N /\ Tr[l].e = "RD"
-         /\ l' = l + 1 /\ UNCHANGED <<execs, val, mf>>
+         /\ l' = l + 1 /\ UNCHANGED <<execs, val, mf, st>>
          /\ IF lost \/ Tr[l].t \in mf THEN UNCHANGED <<cur, lost, viol>>
             ELSE LET ev == Tr[l] IN
                  IF AbsReadOK(val[ev.t], cur[ev.t], ev.k, ev.end, ev.v, ev.c) /\ ev.ok
@@ -115,17 +126,17 @@ SerOK(v, ev) == /\ ev.ok /\ ev.m = v.m
                 /\ {<<ev.a[i][1], ev.a[i][2]>> : i \in 1..Len(ev.a)} = AecPairs(v)
 
 TSer == /\ l <= N /\ Tr[l].e = "S"
-        /\ l' = l + 1 /\ UNCHANGED <<execs, val, cur, mf>>
+        /\ l' = l + 1 /\ UNCHANGED <<execs, val, cur, mf, st>>
         /\ IF lost \/ Tr[l].t \in mf \/ Tr[l].p # val[Tr[l].t].p \/ SerOK(val[Tr[l].t], Tr[l]) THEN UNCHANGED <<lost, viol>>
            ELSE Bad("the serialisation of the block differs from that of a fresh block with that content", Tr[l])
 
 TCrash == /\ l <= N /\ Tr[l].e = "CRASH"
-          /\ l' = l + 1 /\ UNCHANGED <<execs, val, cur, mf>>
+          /\ l' = l + 1 /\ UNCHANGED <<execs, val, cur, mf, st>>
           /\ Bad("implementation crashed (sanitizer report or signal): " \o Tr[l].what, Tr[l])
 
 TEnd == /\ l <= N /\ Tr[l].e = "END"
         /\ ndJsonSerialize(IOEnv.OUT, <<[execs |-> execs, events |-> N, viol |-> viol, drift |-> <<>>]>>)
-        /\ l' = l + 1 /\ UNCHANGED <<val, cur, lost, viol, execs, mf>>
+        /\ l' = l + 1 /\ UNCHANGED <<val, cur, lost, viol, execs, mf, st>>
 
 TraceNext == TReset \/ TItem \/ TNew \/ TSetP \/ TClear \/ TCopy \/ TRead \/ TSer \/ TCrash \/ TEnd
 TraceSpec == TraceInit /\ [][TraceNext]_tvars
